@@ -164,8 +164,76 @@ def _arith_abstraction(pc, goal):
     return out
 
 
-def solve(pc, goal, want_model=True, z3_ms=None, cvc5_ms=None):
-    """Decide pc => goal.  Returns (status, model_or_None, secs, backend, note)."""
+def _z3_in_child(pc, goal, ms):
+    """z3 on pc /\\ not goal in a forked child with a hard wall-clock limit.  Returns 'unsat' | 'unknown' | ('sat', smt2_text)
+    where smt2_text pins the model's constants (so the parent can rebuild a model object with a trivial query)."""
+    import select
+    import signal
+    r, w = os.pipe()
+    pid = os.fork()
+    if pid == 0:
+        code = 0
+        try:
+            os.close(r)
+            s = z3.Solver()
+            s.set("timeout", ms)
+            for c in pc:
+                s.add(c)
+            s.add(z3.Not(goal))
+            res = s.check()
+            if res == z3.unsat:
+                os.write(w, b"unsat")
+            elif res == z3.sat:
+                m = s.model()
+                pin = z3.Solver()
+                for d in m.decls():
+                    if d.arity() == 0:
+                        try:
+                            pin.add(d() == m[d])
+                        except Exception:
+                            pass
+                os.write(w, b"sat\n" + pin.to_smt2().encode("utf-8", "replace"))
+            else:
+                os.write(w, b"unknown")
+        except BaseException:
+            code = 1
+        finally:
+            os._exit(code)
+    os.close(w)
+    out = b""
+    try:
+        deadline = time.time() + ms / 1000.0 * 1.3 + 2.0
+        while True:
+            left = deadline - time.time()
+            if left <= 0:
+                break
+            ready, _, _ = select.select([r], [], [], left)
+            if not ready:
+                break
+            chunk = os.read(r, 1 << 16)
+            if not chunk:
+                break
+            out += chunk
+    finally:
+        os.close(r)
+        try:
+            os.kill(pid, signal.SIGKILL)
+        except OSError:
+            pass
+        try:
+            os.waitpid(pid, 0)
+        except OSError:
+            pass
+    if out == b"unsat":
+        return "unsat"
+    if out.startswith(b"sat\n"):
+        return ("sat", out[4:].decode("utf-8", "replace"))
+    return "unknown"
+
+
+def solve(pc, goal, want_model=True, z3_ms=None, cvc5_ms=None, hard=False):
+    """Decide pc => goal.  Returns (status, model_or_None, secs, backend, note).
+    hard=True: the main z3 query runs in a killable child (string-heavy units: z3 does not always honour its timeout)."""
     t0 = time.time()
     # (1) the goal is literally one of the hypotheses (or a hypothesis is its negation's negation): no solver needed
     gid = goal.get_id()
@@ -203,15 +271,38 @@ def solve(pc, goal, want_model=True, z3_ms=None, cvc5_ms=None):
     for c in pc:
         s.add(c)
     s.add(z3.Not(goal))
-    r = timed_check(s, z3_ms or Z3_TIMEOUT_MS)
+    if hard:
+        ans = _z3_in_child(pc, goal, z3_ms or Z3_TIMEOUT_MS)
+        if ans == "unsat":
+            return "discharged", None, time.time() - t0, "z3", "z3 in a child process"
+        if isinstance(ans, tuple):
+            # rebuild a model object in this process from the child's assignment (a trivial query)
+            try:
+                pin = z3.Solver()
+                pin.set("timeout", 5000)
+                pin.from_string(ans[1])
+                if pin.check() == z3.sat:
+                    return "refuted", pin.model() if want_model else None, time.time() - t0, "z3", "z3 in a child process"
+            except Exception:
+                pass
+            return "undecided", None, time.time() - t0, "z3", "z3 (child) sat, model not transferable"
+
+        class _R:
+            def reason_unknown(self):
+                return "hard wall-clock limit in child"
+        r = z3.unknown
+        s_reason = "timeout (child killed)"
+    else:
+        r = timed_check(s, z3_ms or Z3_TIMEOUT_MS)
+        s_reason = None
     if r == z3.unknown and (cvc5_ms or CVC5_TIMEOUT_MS) <= 0:
-        return "undecided", None, time.time() - t0, "z3", "z3 unknown(%s)" % s.reason_unknown()
+        return "undecided", None, time.time() - t0, "z3", "z3 unknown(%s)" % (s_reason or s.reason_unknown())
     if r == z3.unsat:
         return "discharged", None, time.time() - t0, "z3", ""
     if r == z3.sat:
         return "refuted", s.model() if want_model else None, time.time() - t0, "z3", ""
     # z3 unknown: a second try with a different tactic configuration, then cvc5
-    note = "z3 unknown(%s)" % s.reason_unknown()
+    note = "z3 unknown(%s)" % (s_reason or s.reason_unknown())
     try:
         r2, be = _cvc5_check(s.to_smt2(), cvc5_ms or CVC5_TIMEOUT_MS)
     except Exception as e:  # cvc5 front end could not take the query
@@ -485,7 +576,7 @@ class SymCtx:
         if z3.is_true(goal):
             o.status, o.backend = "discharged", "simplify"
         else:
-            st, model, secs, be, note = solve(o.pc, goal)
+            st, model, secs, be, note = solve(o.pc, goal, hard=getattr(self, "hard_timeouts", False))
             o.status, o.model, o.secs, o.backend, o.note = st, model, secs, be, note
             self.solver_secs[be if be in self.solver_secs else "z3"] += secs
         if len(self.obligations) < 100000:
